@@ -273,7 +273,8 @@ def run(ctx):
     chk.ob('K5', 'record-keyed-by-creator', stored, N.where(), N.name, 'the new record does not store the creating thread id')
     for fn in ('snoopy_tsrm_doesThreadRepoEntryExist', 'snoopy_tsrm_getCurrentThreadRepoEntry'):
         f = prog.require_func(fn)
-        eq = f.calls('pthread_equal')
+        # the comparison may sit in a file-local search helper shared by the two lookups
+        eq = [c for g in common.with_helpers(prog, f) for c in g.calls('pthread_equal')]
         ok = len(eq) >= 1
         for c in eq:
             sides = [strip(a) for a in c.ch[1:]]
